@@ -420,7 +420,11 @@ def load_corpus(prop, engine):
 
 
 def write_evidence(prop, tier, seed, lean, cov, assumptions, wall, violations, checker_cmd, trusted_base):
-    os.makedirs(EVIDENCE_DIR, exist_ok=True)
+    evdir = EVIDENCE_DIR
+    if os.path.realpath(repo()) != "/repo":
+        # runs against a scratch copy (mutation testing) must not overwrite committed evidence
+        evdir = os.path.join(os.environ.get("TMPDIR") or "/var/tmp", "iauthd_verif_scratch_evidence")
+    os.makedirs(evdir, exist_ok=True)
     obligations = len(lean.theorems)
     discharged = sum(1 for th, ax in lean.theorems.items() if ax is not None and all(a in ALLOWED_AXIOMS for a in ax))
     coverage = {
@@ -437,7 +441,7 @@ def write_evidence(prop, tier, seed, lean, cov, assumptions, wall, violations, c
         "coverage": coverage, "assumptions": assumptions,
         "wall_s": round(wall, 2), "violations": violations,
     }
-    with open(os.path.join(EVIDENCE_DIR, prop + ".json"), "w") as f:
+    with open(os.path.join(evdir, prop + ".json"), "w") as f:
         json.dump(doc, f, indent=1)
 
 
